@@ -372,6 +372,14 @@ class Gen:
             i = int(r.integers(ncl))
         cl = sim.clients[i]
         fitted = isinstance(cl.lin, list)
+        if r.random() < 0.025:
+            # the user overwrites one of their data objects in place (reused buffer)
+            used = [d for d in sim.trace["datasets"] if not d.get("bad")]
+            fit_ds = [c.lin[0][1] for c in sim.clients if isinstance(c.lin, list) and c.lin[0][1] is not None and not sim.ds_spec[c.lin[0][1]].get("bad")]
+            d = self.choice(fit_ds) if fit_ds and r.random() < 0.8 else self.choice(used)["id"]
+            spec = sim.ds_spec[d]
+            self.last_changer = None
+            return {"op": "mutate", "d": d, "values": values_to_json(self.values(len(spec["values"]), len(spec["columns"]), spec.get("dtype", "float64")))}
         if cl.is_det:
             if fitted:
                 ops = [("predict", 25), ("transform", 14), ("transform_scores", 14), ("fit", 14), ("update", 9), ("update_predict", 2), ("fit_predict", 3), ("fit_transform", 2), ("set_params", 8), ("clone", 3), ("reset", 2), ("construct", 1)]
